@@ -59,8 +59,9 @@ C(f"{F}:Tokenizer.consume_macro_params", params=T, returns="Tok",
                     "flag protocol: a pushed-back token is popped by the next peek() before a macro start rule can set _call_macro again",
                     "all(pos_le(node_end(gen_item(self, j)), node_start(gen_item(self, j + 1))) for j in range(0, gen_len(self) - 1))":
                     "C08: raw tokens appear in non-decreasing, non-overlapping position order"},
-  modifies=["self._tokengen", "self._stack", "self._call_macro"],
+  modifies=["self._tokengen", "self._stack", "self._call_macro", "self._lines"],
   loops={0: {"inv": [f"gen_pos(self) >= {P0}", "gen_pos(self) <= gen_len(self)", "self._call_macro", "self._stack == old(self._stack)",
+                     "implies(len(self._path) > 0 and not old(truthy(self._lines)), not truthy(self._lines))",
                      # C07: `string` is the verbatim concatenation of every raw token pulled so far, none skipped, reordered or altered
                      f"string == gen_cat(self, {P0}, gen_pos(self))",
                      f"(start is None) == (gen_pos(self) == {P0})", "(end is None) == (start is None)",
@@ -83,15 +84,43 @@ C(f"{F}:Tokenizer.consume_macro_params", params=T, returns="Tok",
            # ... and a MACRO_PARAM / WS result carries exactly the text of the raw tokens before the delimiter, spanning first.start .. last.end
            f"implies(result.type == Token.MACRO_PARAM or result.type == Token.WS, result.string == gen_cat(self, {P0}, gen_pos(self) - 1)"
            f" and result.start == node_start(gen_item(self, {P0})) and result.end == node_end(gen_item(self, gen_pos(self) - 2)))",
+           # C12: the line cache is filled for string input only (get_lines re-reads the file otherwise)
+           "implies(len(self._path) > 0 and not old(truthy(self._lines)), not truthy(self._lines))",
            f"result.type == Token.MACRO_PARAM or result.type == Token.WS or (result == gen_item(self, gen_pos(self) - 1) and result.string == ')'"
            f" and gen_cat(self, {P0}, gen_pos(self) - 1) == '' and len(self._stack) == 0)"],
-  raises=["SyntaxError"], properties=["C03", "C07"])
+  raises=["SyntaxError"], properties=["C03", "C07", "C12"])
 
-C(f"{F}:Tokenizer.consume_with_macro_params", params=T, returns="Tok", verify=False,
-  why_assumed="raw-capture loop over the generator: bounded stand-in only (C07)",
-  requires=["self._with_macro", "len(self._tokens) > 0"], modifies=["self._tokengen", "self._with_macro", "self._stack"],
+LASTP = "gen_item(self, gen_pos(self) - 1)"
+C(f"{F}:Tokenizer.consume_with_macro_params", params=T, returns="Tok",
+  requires=["self._with_macro", "len(self._tokens) > 0", "tk_ok(self)"],
+  requires_assumed={"not endmarker_pulled(self)": "flag protocol: the raw stream is not exhausted while _with_macro is set (C07/C14 flag obligations + stand-in)",
+                    "len(self._stack) == 0": "flag protocol: a pushed-back token is popped by the next peek() before a macro start rule can set a flag again",
+                    "gen_item(self, gen_pos(self)).type != Token.ENDMARKER": "C08: the logical line of the `with! ...:` header ends in a NEWLINE token before ENDMARKER"},
+  # the captured TEXT (lines dict, re.findall, dedent) is not modelled: only which tokens are consumed, where capture stops, flags, span
+  opaque=["lines", "text", "lineno", "line"],
+  loops={0: {"inv": [f"gen_pos(self) == {P0} + _i", "gen_pos(self) <= gen_len(self)", "indent >= 0", "self._with_macro", "self._stack == old(self._stack)",
+                     "implies(opened, is_indented)", "implies(_i == 0, not is_indented and not opened and indent == 0)", "implies(is_indented and not opened, indent == 0)",
+                     # block form before its INDENT: only comment / blank-line tokens have been passed since the NEWLINE after the colon
+                     f"implies(is_indented and not opened, all(gen_item(self, j).type == Token.COMMENT or gen_item(self, j).type == Token.NL"
+                     f" or gen_item(self, j).type == Token.WS for j in range({P0} + 1, gen_pos(self))))",
+                     f"implies(is_indented, _i >= 1 and gen_item(self, {P0}).type == Token.NEWLINE)",
+                     f"all(gen_item(self, j).type != Token.ENDMARKER for j in range({P0}, gen_pos(self)))",
+                     # one-line form (and the fallback when no block follows): no NEWLINE has been passed yet
+                     f"implies(not is_indented, all(gen_item(self, j).type != Token.NEWLINE for j in range({P0} + 1, gen_pos(self))))",
+                     f"implies(_i >= 1 and gen_item(self, {P0}).type != Token.NEWLINE, not is_indented)",
+                     "self._tokens == old(self._tokens)", "self._index == old(self._index)"],
+             "types": {"is_indented": "bool", "opened": "bool", "indent": "int", "idx": "int", "tok": "Tok"}}},
   ensures=["result.type == Token.MACRO_PARAM", "tk_ok(self)", "gen_pos(self) > old(gen_pos(self)) + len(self._stack) - old(len(self._stack))",
-           "implies(old(toks_wf(self)), toks_wf(self) and tok_wf(result))"], properties=["C07"])
+           "result.start == last(old(self._tokens)).end and result.end == result.start",
+           # C07/C14: capture stops at a DEDENT that closes the block, at the end of input, or (one-line form) at the NEWLINE ending the line
+           f"{LASTP}.type == Token.DEDENT or {LASTP}.type == Token.ENDMARKER or {LASTP}.type == Token.NEWLINE or endmarker_pulled(self)",
+           f"implies({LASTP}.type == Token.DEDENT, not self._with_macro and self._stack == old(self._stack))",
+           f"implies({LASTP}.type == Token.ENDMARKER, not self._with_macro and len(self._stack) == 1 and self._stack[0] == {LASTP})",
+           f"implies({LASTP}.type == Token.NEWLINE, self._with_macro and self._stack == old(self._stack))",
+           # C14: in the one-line form (text follows the colon on the same line) the capture ends at the FIRST NEWLINE, or at the end of input
+           f"implies(gen_item(self, {P0}).type != Token.NEWLINE and {LASTP}.type == Token.NEWLINE, all(gen_item(self, j).type != Token.NEWLINE for j in range({P0}, gen_pos(self) - 1)))",
+           ],
+  modifies=["self._tokengen", "self._with_macro", "self._stack"], raises=[], properties=["C03", "C07", "C12", "C14"])
 
 STACK_OK = "all(self._stack[j].type == Token.OP or self._stack[j].type == Token.ENDMARKER for j in range(len(self._stack)))"
 PEEK_REQ = ["tk_ok(self)", "can_peek(self)"]
